@@ -16,12 +16,12 @@ def obligations():
     L.append(Ob('H2.degenerate_args', 'C19_softclip.c', ['src/opus.c'], ['-DMODE=1'], unwind=1,
                 unwindset=['harness:5'], functions=['opus_pcm_soft_clip'], budget=300,
                 bounds='C<1 (any int), N<1 (any int), NULL buffer, NULL memory; buffer/memory contents any floats (the loops of the function are not unwound: with unwinding assertions on, reaching one would fail)'))
-    for (n, c, tier) in ((1, 1, 'quick'), (2, 1, 'quick'), (2, 2, 'thorough'), (3, 1, 'thorough')):
+    for (n, c, tier) in ((1, 1, 'quick'), (2, 1, 'thorough'), (2, 2, 'thorough'), (3, 1, 'thorough')):
         L.append(Ob('H3.saturated_peaks.n%dc%d' % (n, c), 'C19_softclip.c', ['src/opus.c'], ['-DMODE=3', '-DNMAX=%d' % n, '-DCMAX=%d' % c], unwind=1, tier=tier,
                     unwindset=us(n, c), functions=['opus_pcm_soft_clip'], budget=900,
                     bounds='N=%d, C=%d, every sample any non-NaN float with |x|<=1 or |x|>=2 (incl. infinities): all peaks saturate to +-2; memory in {0,+-0.25}' % (n, c)))
-    # (2,2) and (3,1) gave no verdict in 900 s on a loaded machine: thorough tier only, with a larger budget
-    for (n, c, tier) in ((1, 1, 'quick'), (2, 1, 'quick'), (2, 2, 'thorough'), (3, 1, 'thorough')):
+    # N>=2 gave no verdict in 600-900 s (symbolic coefficient times symbolic samples): thorough tier only, with a larger budget; not seen to finish
+    for (n, c, tier) in ((1, 1, 'quick'), (2, 1, 'thorough'), (2, 2, 'thorough'), (3, 1, 'thorough')):
         L.append(Ob('H4.memory_cleared_in_range.n%dc%d' % (n, c), 'C19_softclip.c', ['src/opus.c'], ['-DMODE=4', '-DNMAX=%d' % n, '-DCMAX=%d' % c], unwind=1, tier=tier,
                     unwindset=us(n, c), functions=['opus_pcm_soft_clip'], budget=(600 if tier == 'quick' else 3000),
                     bounds='N=%d, C=%d, every sample any float in [-1,1], memory any coefficient |a|<=0.2500001 a previous call can leave (continuation of the previous curve; division-free path)' % (n, c)))
